@@ -204,6 +204,14 @@ def run(m: Model, r: Report, tier: str) -> None:
             f"{rz.qualname}#default-session-offered", "session 1 must always be part of the model", loc=rz.loc)
     asrt = [f.qualname for f in us.methods.values() if "Virtual ECU in unsupported session" in ast.unparse(f.node)]
     r.extra["invariant_asserted_in"] = asrt
+    for f in us.methods.values():
+        for n in ast.walk(f.node):
+            if isinstance(n, ast.Assert) and n.msg is not None and "Virtual ECU in unsupported session" in ast.unparse(n.msg):
+                t = n.test
+                r.check(isinstance(t, ast.Compare) and len(t.ops) == 1 and isinstance(t.ops[0], ast.In) and ast.unparse(t.left) == "self.state.session"
+                        and ast.unparse(t.comparators[0]) == "self.supported_services", "R4", f"{f.qualname}#session-invariant-assert",
+                        f"the assertion `{ast.unparse(t)}` does not state the invariant established above (session in supported_services): it fails on every request "
+                        "and the connection is dropped", loc=f"{f.module.relpath}:{n.lineno}")
 
     # ---------------------------------------------------------------- R8
     from sa import miniterp
